@@ -5,7 +5,7 @@
 use crate::exec::{self, Case, Obs, Op, Outcome, Tok};
 use crate::gen::{self, Gen, Swarm};
 use crate::rng::{mix, Rng};
-use crate::shape::Opts;
+use crate::shape::{Opts, Shape, S};
 use crate::stats::{Fnv, RunReport, Stats, Violation};
 use crate::val::Val;
 use crate::world::{self, CbFault};
@@ -52,6 +52,18 @@ pub fn gen_case(seed: u64, run: u64, faults: bool) -> Case {
         parsers[0] = wide_opts(&mut r);
     } else if big {
         parsers[0] = big_opts(&mut r);
+    }
+    // one run in six carries a *respelled sibling*: the same definition with the first two ASCII
+    // letters of every long name replaced by one two-byte letter, so that every text has the
+    // same length in bytes and another length in characters (round 11: a render cache keyed by
+    // byte sizes hands one definition the column layout of the other)
+    if !big && r.chance(1, 6) {
+        let sib = respell_opts(&parsers[0]);
+        if parsers.len() > 1 {
+            parsers[1] = sib;
+        } else {
+            parsers.push(sib);
+        }
     }
     let mut env: Vec<(Tok, Tok)> = Vec::new();
     for o in &parsers {
@@ -711,4 +723,37 @@ pub fn run_case(case: &Case, stats: &mut Stats) -> RunReport {
         report.nontrivial = Some(case.content_hash());
     }
     report
+}
+
+/// same length in bytes, one character fewer: `alpha` becomes `\u{e1}pha`
+fn respell(l: S) -> S {
+    let b = l.as_bytes();
+    if b.len() >= 2 && b[0].is_ascii_alphabetic() && b[1].is_ascii_alphabetic() {
+        let c = char::from_u32(0xE0 + (b[0] % 16) as u32).unwrap_or('\u{e9}');
+        crate::shape::intern(&format!("{}{}", c, &l[2..]))
+    } else {
+        l
+    }
+}
+
+fn respell_opts(o: &Opts) -> Opts {
+    let mut o = o.clone();
+    respell_shape(&mut o.root);
+    o
+}
+
+fn respell_shape(s: &mut Shape) {
+    match s {
+        Shape::Switch(n) | Shape::Flag(n, _, _) | Shape::ReqFlag(n, _) => {
+            n.longs.iter_mut().for_each(|l| *l = respell(*l))
+        }
+        Shape::Arg { named, .. } => named.longs.iter_mut().for_each(|l| *l = respell(*l)),
+        Shape::Cmd { longs, opts, .. } => {
+            longs.iter_mut().for_each(|l| *l = respell(*l));
+            respell_shape(&mut opts.root);
+        }
+        Shape::Wrap(_, inner) => respell_shape(inner),
+        Shape::Seq(v, _) | Shape::Alt(v) => v.iter_mut().for_each(respell_shape),
+        _ => {}
+    }
 }
